@@ -112,6 +112,10 @@ def cfg_table(ctx):
             if type(base).__name__ == "Match" and e.func.attr in ("group", "groups", "start", "end") and all(isinstance(a, (int, str)) for a in args):
                 return getattr(base, e.func.attr)(*args)
             raise Unk(norm(e))
+        if isinstance(e, ast.Call) and isinstance(e.func, ast.Name) and e.func.id not in env and e.func.id in mod.functions and not e.keywords \
+                and all(not isinstance(a, ast.Starred) for a in e.args):
+            # a helper of the same module: interpreted on the values of this row
+            return interp(mod.functions[e.func.id], [ev(a, env) for a in e.args], env.get("$depth", 0) + 1)
         if isinstance(e, ast.Call) and isinstance(e.func, ast.Name) and e.func.id in ("str", "list", "bool", "len", "tuple") and len(e.args) == 1 and not e.keywords \
                 and e.func.id not in env:
             return {"str": str, "list": list, "bool": bool, "len": len, "tuple": tuple}[e.func.id](ev(e.args[0], env))
@@ -156,6 +160,59 @@ def cfg_table(ctx):
             return out
         raise Unk(norm(e)[:40])
 
+    def bind(target, value, env):
+        if isinstance(target, ast.Name):
+            env[target.id] = value
+            return
+        if isinstance(target, (ast.Tuple, ast.List)) and all(isinstance(x, ast.Name) for x in target.elts):
+            if value is Unk or not isinstance(value, (tuple, list)) or len(value) != len(target.elts):
+                for x in target.elts:
+                    env[x.id] = Unk
+            else:
+                for x, v in zip(target.elts, value):
+                    env[x.id] = v
+            return
+        raise Unk(norm(target))
+
+    def interp(F, argvals, depth):
+        """Return value of a module-level helper for concrete arguments (straight assignments, tests and returns only)."""
+        if depth > 3 or len(argvals) != len(F.params) or F.node.args.vararg or F.node.args.kwarg or any(isinstance(x, (ast.Yield, ast.YieldFrom)) for x in own_nodes(F.node)):
+            raise Unk(F.qualname)
+        env2 = dict(zip(F.params, argvals))
+        env2["$depth"] = depth
+        gF = C.cfg_of(F)
+        out = {}
+
+        def visit(n):
+            a = n.ast
+            if n.kind != "stmt" or a is None:
+                return
+            if isinstance(a, ast.Return):
+                out["v"] = None if a.value is None else ev(a.value, env2)
+            elif isinstance(a, ast.Assign) and len(a.targets) == 1:
+                try:
+                    v = ev(a.value, env2)
+                except Unk:
+                    v = Unk
+                bind(a.targets[0], v, env2)
+            elif isinstance(a, ast.Expr) and isinstance(a.value, ast.Constant):
+                pass
+            else:
+                raise Unk(norm(a)[:40])
+
+        def atom(x):
+            try:
+                return bool(ev(x, env2))
+            except Unk:
+                return None
+        try:
+            _, term = C.trace(gF, gF.entry, atom, visit=visit)
+        except C.Undetermined as exc:
+            raise Unk(str(exc))
+        if term != "exit":
+            raise Unk(F.qualname)
+        return out.get("v")
+
     def kind_of(v, text):
         if isinstance(v, bool):
             return "bool:%s" % v
@@ -180,11 +237,12 @@ def cfg_table(ctx):
                     return
                 if isinstance(a, ast.Assign) and len(a.targets) == 1:
                     t = a.targets[0]
-                    if isinstance(t, ast.Name):
+                    if isinstance(t, (ast.Name, ast.Tuple, ast.List)) and all(isinstance(x, ast.Name) for x in (t.elts if not isinstance(t, ast.Name) else [t])):
                         try:
-                            env[t.id] = ev(a.value, env)
+                            v = ev(a.value, env)
                         except Unk:
-                            env[t.id] = Unk
+                            v = Unk
+                        bind(t, v, env)
                         return
                     if isinstance(t, ast.Subscript) and isinstance(t.value, ast.Name) and t.value.id == kw_param:
                         try:
@@ -280,7 +338,10 @@ def run(ctx):
             else:
                 ctx.holds("C20.1", cfg_fn, "%s -> keyword %s (%s), same as flag %s" % (label, dest, k.split(":")[0], flag), "config key " + key + "=" + vclass)
     # ---- C20.3 parameter -> field
-    flow = Flow(ctx.prog, ctx.res, stop_funcs=[init])
+    # the last element of a list option taken under os.path.exists(...) is the content path, not an option value
+    from .c08 import recovery_hook, recovery_expr_hook
+    flow = Flow(ctx.prog, ctx.res, stop_funcs=[init], hook=recovery_hook(ctx, init))
+    flow.expr_hook = recovery_expr_hook(ctx, init)
     g = C.cfg_of(init)
     option_params = {v[0] for v in DOC.values()}
     seen_fields = {}
@@ -326,6 +387,14 @@ def run(ctx):
             bound = ctx.res.bind_args(F, callsite, F.cls is not None and not F.is_static)
             if t.value.id in bound and not isinstance(bound[t.value.id], list):
                 base = norm(bound[t.value.id])
+        level_known = True
+        if isinstance(t.value, ast.Name) and base == t.value.id:
+            # a local name for the dictionary: `info = self.meta["info"]`
+            bl = ctx.res.bindings(F).get(t.value.id, [])
+            if len(bl) == 1 and bl[0][0] == "value" and isinstance(bl[0][1], (ast.Subscript, ast.Attribute)):
+                base = norm(bl[0][1])
+            else:
+                level_known = False
         g = C.cfg_of(F)
         in_info = base.endswith("['info']")
         expected_info = k in ("comment", "private", "source", "piece length")
@@ -363,6 +432,9 @@ def run(ctx):
         want = FIELD_PARAMS[k]
         seen_fields.setdefault(k, set()).update(used_opts)
         problems = []
+        if not level_known:
+            ctx.undecided("C20.3", F, "field %r: which dictionary `%s` names here could not be read" % (k, base), n)
+            continue
         if in_info != expected_info:
             problems.append("stored at the %s level, documented level is %s" % ("info" if in_info else "top", "info" if expected_info else "top"))
         if k == "piece length":
@@ -484,29 +556,40 @@ def explicit_config_wins(ctx):
         return isinstance(e, ast.Attribute) and isinstance(e.value, ast.Name) and e.value.id == ns and e.attr == "config_path"
     n = 0
     for r in [x for x in own_nodes(fn.node) if isinstance(x, ast.Return) and x.value is not None]:
-        if not isinstance(r.value, ast.Name):
-            if not is_explicit(r.value):
-                ctx.undecided("C20.8", fn, "the locator returns `%s`" % norm(r.value), r)
-            continue
         rn = C.stmt_node(ctx, fn, r)
-        for d in rd.reaching(r.value.id, rn):
-            v = d.value if d.kind == "assign" else None
-            if v is None or (isinstance(v, ast.Constant) and v.value is None) or is_explicit(v):
+        # the values this return can hand out, each with the node that selects it
+        results = []
+        if isinstance(r.value, ast.Name):
+            for d in rd.reaching(r.value.id, rn):
+                if d.kind == "assign" and d.value is not None:
+                    results.append((d.value, d.node, d.stmt if d.stmt is not None else r))
+                else:
+                    results.append((r.value, rn, r))      # a loop variable, a parameter: judged where it is returned
+        elif is_explicit(r.value):
+            continue
+        elif isinstance(r.value, (ast.Attribute, ast.Call, ast.BinOp, ast.Subscript, ast.JoinedStr)):
+            results.append((r.value, rn, r))
+        else:
+            ctx.undecided("C20.8", fn, "the locator returns `%s`" % norm(r.value), r)
+            continue
+        for v, site, stmt in results:
+            if (isinstance(v, ast.Constant) and v.value is None) or is_explicit(v):
                 continue
             n += 1
             only_without = False
-            for b, lab in g.control_deps(d.node, normal_only=True):
-                t = C.test_expr(b)
-                if t is None:
-                    continue
+            for node in {site, rn}:
+                for b, lab in g.control_deps(node, normal_only=True):
+                    t = C.test_expr(b)
+                    if t is None:
+                        continue
 
-                def atom(x):
-                    return True if is_explicit(x) else None
-                if C.branch_when(b, atom) not in (None, lab):
-                    only_without = True
+                    def atom(x):
+                        return True if is_explicit(x) else None
+                    if C.branch_when(b, atom) not in (None, lab):
+                        only_without = True
             ctx.decide("C20.8", fn, only_without, "the default location `%s` is used only when no configuration path was given" % norm(v),
                        "`%s` (a default location) replaces the result even when --config-path names a file: the options of the file the user pointed at are ignored in favour of whatever "
-                       "torrentfile.ini lies in the working / home directory" % norm(d.stmt if d.stmt is not None else v), d.stmt if d.stmt is not None else r)
+                       "torrentfile.ini lies in the working / home directory" % norm(stmt), stmt)
     ctx.floor("default-location results of the configuration locator", 1, n)
 
 
